@@ -1,7 +1,7 @@
 // C02 driver: Union (with reported / pre-filled maps), UnionDisjointStates (only for disjoint operands),
 // Intersection and IntersectionBU (with reported product maps), operands re-read afterwards.
 // case:   bin <T A> <T B> PL <n> {k v}* PR <n> {k v}* [SHARE <k>]
-// output: U <T> ML <n> {k v}* MR <n> {k v}* D (<T> | SKIP) X <T> PM <n> {p q s}* XB <T> PM <n> {p q s}* I <T A> <T B>
+// output: U <T> ML <n> {k v}* MR <n> {k v}* D (<T> | SKIP) X <T> PM <n> {p q s}* XB <T> PM <n> {p q s}* XR <T> PM .. XBR <T> PM .. I <T A> <T B>   (XR/XBR: same call again, map of the first call pre-filled)
 #include "common.hh"
 #include <map>
 using namespace vd;
@@ -43,8 +43,12 @@ int main() {
 			os << "U " << showTA(obsAut(u)); showMap(os, "ML", ml); showMap(os, "MR", mr);
 			std::set<U> sa = statesOf(a), sb = statesOf(b); bool disj = true; for (U q : sa) if (sb.count(q)) disj = false;
 			if (disj) { Aut d = Aut::UnionDisjointStates(A, B); os << " D " << showTA(obsAut(d)); } else os << " D SKIP";
-			{ VATA::AutBase::ProductTranslMap pm; Aut x = Aut::Intersection(A, B, &pm); os << " X " << showTA(obsAut(x)); showPM(os, pm); }
-			{ VATA::AutBase::ProductTranslMap pm; Aut x = Aut::IntersectionBU(A, B, &pm); os << " XB " << showTA(obsAut(x)); showPM(os, pm); }
+			VATA::AutBase::ProductTranslMap pmT, pmB;
+			{ Aut x = Aut::Intersection(A, B, &pmT); os << " X " << showTA(obsAut(x)); showPM(os, pmT); }
+			{ Aut x = Aut::IntersectionBU(A, B, &pmB); os << " XB " << showTA(obsAut(x)); showPM(os, pmB); }
+			// the same calls again with the maps of the first calls handed in (caller-supplied, pre-filled product maps)
+			{ Aut x = Aut::Intersection(A, B, &pmT); os << " XR " << showTA(obsAut(x)); showPM(os, pmT); }
+			{ Aut x = Aut::IntersectionBU(A, B, &pmB); os << " XBR " << showTA(obsAut(x)); showPM(os, pmB); }
 			os << " I " << showTA(obsAut(A)) << ' ' << showTA(obsAut(B));
 			return os.str();
 		});
